@@ -365,6 +365,10 @@ type harnessCfg struct {
 	Quick        tierCfg  `json:"quick"`
 	Thorough     tierCfg  `json:"thorough"`
 	Note         string   `json:"note"`
+	// Shared: the harness belongs to another property and is run here with a
+	// subset of its parameter sets; the markers and assertions of its other
+	// parameter sets are not expected to be hit (vacuity is judged where it is owned).
+	Shared bool `json:"shared"`
 	// OrderDependent: the harness quantifies over Go's map iteration order, which a
 	// native run cannot steer; a candidate is confirmed when any of several native
 	// runs fails (in whatever way the order at hand produces).
@@ -764,6 +768,15 @@ func raceSummary(raw string) string {
 	return strings.Join(fns, " | ")
 }
 
+func sharedHarness(cfgs map[string]propCfg, prop, name string) bool {
+	for _, h := range cfgs[prop].Harnesses {
+		if h.Name == name && h.Shared {
+			return true
+		}
+	}
+	return false
+}
+
 func orderDependent(cfgs map[string]propCfg, name string) bool {
 	for _, p := range cfgs {
 		for _, h := range p.Harnesses {
@@ -975,6 +988,12 @@ func checkMain(prop, tier string) int {
 			for k, n := range st.Asserts {
 				asserts[k] += n
 			}
+		}
+		if sharedHarness(cfgs, prop, hn) {
+			if !reach["end"] {
+				vacuous = append(vacuous, hn+": reach marker never hit: end")
+			}
+			continue
 		}
 		for _, id := range sts[0].StaticReach {
 			if !reach[id] {
